@@ -858,5 +858,125 @@ def runReqFrom (c : Cfg) (pol : ClosePolicy) (reqClose connect2xx : Bool) : Stat
 def runReq (c : Cfg) (pol : ClosePolicy) (reqClose connect2xx : Bool) (steps : List Step) : Option State :=
   runReqFrom c pol reqClose connect2xx init steps
 
+/-! ### The copy loop over what `Read` returns
+
+`copy d n` and `eof d` above are what a copier DOES; which of them it does follows from what the `Read` of its
+source leg returns, and `io.Reader` lets a `Read` return its last `n > 0` bytes TOGETHER with `io.EOF`
+(`*tls.Conn` does when a TLS 1.2 peer's final record and its close_notify arrive together; any `ConnectFunc`
+connection may).  "Callers should always process the n > 0 bytes returned before considering the error": that
+is `LoopOrder.bytesFirst`, the order of `io.CopyBuffer`'s own loop.  Which loop runs is decided by the legs:
+`io.CopyBuffer` hands the copy to the source's `WriteTo` or to the destination's `ReadFrom` when there is one
+(`FastPaths`) — a `*net.TCPConn`, forwarder's `conntrack` connection with `TrackTraffic` (its own `ReadFrom`,
+delegating to the TCP connection's), a `ConnectFunc` connection with fast paths.  `LoopOrder.errorFirst` is the
+loop that looks at the error before the byte count (the seeded variant of `conntrack.conn.ReadFrom`). -/
+
+/-- what one `Read` of a copier's source returns -/
+inductive ReadRes where
+  /-- `(n > 0, nil)` -/
+  | data (bs : Bytes)
+  /-- `(n > 0, io.EOF)`: the last bytes and the end of the stream in one call -/
+  | dataEof (bs : Bytes)
+  /-- `(0, io.EOF)` -/
+  | eof
+  /-- `(n ≥ 0, err)` with another error -/
+  | dataErr (bs : Bytes)
+  deriving DecidableEq, Repr
+
+def ReadRes.bytes : ReadRes → Bytes
+  | .data bs => bs
+  | .dataEof bs => bs
+  | .eof => []
+  | .dataErr bs => bs
+
+/-- the call reports an error (`io.EOF` included): the loop makes no further call -/
+def ReadRes.ends : ReadRes → Bool
+  | .data _ => false
+  | _ => true
+
+/-- the error is `io.EOF`: the loop returns `nil` and `copier.copy` relays a clean end-of-stream -/
+def ReadRes.clean : ReadRes → Bool
+  | .dataErr _ => false
+  | _ => true
+
+inductive LoopOrder where
+  /-- `if nr > 0 { write }` … `if er != nil { break }` — `io.CopyBuffer`, `(*net.TCPConn).ReadFrom`'s fallback -/
+  | bytesFirst
+  /-- `if er != nil { return }` … `write buf[:nr]` -/
+  | errorFirst
+  deriving DecidableEq, Repr
+
+structure CopyOut where
+  /-- what the loop wrote to the destination -/
+  written : Bytes := []
+  /-- the loop has returned (otherwise it is blocked in `Read`: the source has said nothing more yet) -/
+  returned : Bool := false
+  /-- it returned `nil`: `closeWriter` shows the destination a clean end-of-stream after `written` -/
+  clean : Bool := true
+  deriving DecidableEq, Repr
+
+/-- what a loop writes for one `Read` -/
+def LoopOrder.writes : LoopOrder → ReadRes → Bytes
+  | .bytesFirst, r => r.bytes
+  | .errorFirst, r => if r.ends then [] else r.bytes
+
+/-- the loop, call by call, with what it has written so far -/
+def copyLoopFrom (ord : LoopOrder) (acc : Bytes) : List ReadRes → CopyOut
+  | [] => { written := acc }
+  | r :: rest =>
+    if r.ends then { written := acc ++ ord.writes r, returned := true, clean := r.clean }
+    else copyLoopFrom ord (acc ++ ord.writes r) rest
+
+def copyLoop (ord : LoopOrder) (rs : List ReadRes) : CopyOut := copyLoopFrom ord [] rs
+
+/-- the calls a loop gets to make: up to and including the first that reports an error -/
+def calls : List ReadRes → List ReadRes
+  | [] => []
+  | r :: rest => if r.ends then [r] else r :: calls rest
+
+/-- every byte the source handed over in those calls, in order — those returned together with an error too -/
+def handedOver (rs : List ReadRes) : Bytes := (calls rs).flatMap ReadRes.bytes
+
+/-- the bytes of the call that ended the stream (none: it has not ended, or ended with `(0, err)`) -/
+def lastBlock : List ReadRes → Bytes
+  | [] => []
+  | r :: rest => if r.ends then r.bytes else lastBlock rest
+
+/-- the other encoding of the same stream: the last bytes and the end in two calls -/
+def splitEnds : List ReadRes → List ReadRes
+  | [] => []
+  | .dataEof bs :: rest => .data bs :: .eof :: splitEnds rest
+  | r :: rest => r :: splitEnds rest
+
+/-- … and back: `(n, nil)` followed by `(0, io.EOF)` as one call -/
+def joinEnds : List ReadRes → List ReadRes
+  | .data bs :: .eof :: rest => .dataEof bs :: joinEnds rest
+  | r :: rest => r :: joinEnds rest
+  | [] => []
+
+/-- the steps of the tunnel machine a copier of direction `d` takes for these results (an error is not a step
+    of the plain machine: `astep`'s `abort`) -/
+def toSteps (d : Dir) : List ReadRes → List Step
+  | [] => []
+  | .data bs :: rest => (if bs.length = 0 then [] else [.copy d bs.length]) ++ toSteps d rest
+  | .dataEof bs :: rest => (if bs.length = 0 then [] else [.copy d bs.length]) ++ .eof d :: toSteps d rest
+  | .eof :: rest => .eof d :: toSteps d rest
+  | .dataErr bs :: rest => (if bs.length = 0 then [] else [.copy d bs.length]) ++ toSteps d rest
+
+/-- which loop `io.CopyBuffer(dst, src, buf)` runs -/
+structure FastPaths where
+  /-- the source leg has a `WriteTo` that copies in this order -/
+  srcWriteTo : Option LoopOrder := none
+  /-- the destination leg has a `ReadFrom` that copies in this order -/
+  dstReadFrom : Option LoopOrder := none
+  deriving DecidableEq, Repr
+
+def copyBuffer (fp : FastPaths) (rs : List ReadRes) : CopyOut :=
+  match fp.srcWriteTo with
+  | some o => copyLoop o rs
+  | none =>
+    match fp.dstReadFrom with
+    | some o => copyLoop o rs
+    | none => copyLoop .bytesFirst rs
+
 end C03
 end FwdVerif
